@@ -148,7 +148,7 @@ def configs(tier):
 
 
 def tasks(tier):
-    ts = [("config", k) for k in range(len(configs(tier)))] + [("en-width",), ("init-frame",), ("async-reset-domain",), ("tb-row-access",), ("several-memories",)]
+    ts = [("config", k) for k in range(len(configs(tier)))] + [("en-width",), ("init-frame",), ("async-reset-domain",), ("tb-row-access",), ("several-memories",), ("clock-polarity-and-defaults",)]
     ts += [("rtlil", k) for k in range(len(configs(tier)))]
     ts += [("behaviour", k) for k in range(len(configs(tier)))]
     # the storage class itself (the contracts the configurations above rely on)
@@ -470,6 +470,87 @@ def check_several_memories():
                     **({} if bad is None else {"failing_input": {**bad, "declaration order": "".join(order),
                                                                  "how": "three Memory objects in one Module, rtlil.convert, parsed"}})})
     return {"task": "several-memories", "paths": 0, "solver_s": 0.0, "obligations": obs}
+
+
+def check_clock_polarity_and_defaults():
+    """(a) every clocked memory port cell ($memrd_v2 with CLK_ENABLE, $memwr_v2) has the CLK_POLARITY of its domain's active
+    edge, for ports in a posedge and in a negedge domain of the same memory;  (b) rows the initialiser does not mention hold
+    the row shape's default constant (shape.const(None)) -- not all-zero bits -- in MemoryData.Init, in the simulator's
+    storage and in the emitted $meminit_v2 DATA, for a row shape with a non-zero default."""
+    from amaranth.hdl import Module, ClockDomain
+    from amaranth.hdl._mem import MemoryData
+    from amaranth.lib.memory import Memory
+    from amaranth.lib import data
+    from amaranth.back import rtlil
+    from amaranth.sim import Simulator
+    from harness import rtlil_parse as RP
+    obs = []
+
+    def ob(nm, ok, fi):
+        obs.append({"name": f"memory::{nm}", "kind": "post", "status": "proved" if ok else "refuted", "backend": "closed", "time_s": 0.0,
+                    **({} if ok else {"failing_input": fi})})
+    # (a)
+    mem = Memory(shape=4, depth=2, init=[1, 2])
+    ports = {}
+    for dn in ("p", "n"):
+        ports[dn] = (mem.write_port(domain=dn), mem.read_port(domain=dn))
+    m = Module()
+    m.domains += [ClockDomain("p", reset_less=True), ClockDomain("n", clk_edge="neg", reset_less=True)]
+    m.submodules.mem = mem
+    plist = []
+    for dn, (wp, rp) in ports.items():
+        wp.addr.name, rp.addr.name = f"{dn}_waddr", f"{dn}_raddr"
+        plist += [wp.addr, wp.data, wp.en, rp.addr, rp.data, rp.en]
+    mods = RP.parse(rtlil.convert(m, ports=plist, emit_src=False))
+    seen = {}
+    for mod in mods.values():
+        for c in mod.cells.values():
+            if c.kind in ("$memrd_v2", "$memwr_v2"):
+                bs = RP.bits_of(c.ports["\\ADDR"], mod)
+                dom = bs[0][0].lstrip("\\")[0] if bs else "?"
+                seen[(c.kind, dom)] = (int(bool(c.params["\\CLK_POLARITY"])), int(bool(c.params.get("\\CLK_ENABLE", 1))))
+    want = {("$memrd_v2", "p"): (1, 1), ("$memrd_v2", "n"): (0, 1), ("$memwr_v2", "p"): (1, 1), ("$memwr_v2", "n"): (0, 1)}
+    ob("rtlil::port-clock-polarity-is-the-domain's-edge", seen == want, {"(cell, domain) -> (CLK_POLARITY, CLK_ENABLE)": {str(k): v for k, v in seen.items()},
+                                                                            "expected": {str(k): v for k, v in want.items()},
+                                                                            "how": "Memory with a write and a sync read port in a posedge and in a negedge domain; rtlil.convert, parsed"})
+    # (b)
+
+    class Row(data.Struct):
+        a: 4 = 5
+        b: 4 = 0xA
+    default = Row.const(None).as_bits()
+    md = MemoryData(shape=Row, depth=3, init=[{"a": 1, "b": 2}])
+    raw = [int(x) if isinstance(x, int) else x for x in md.init._raw]
+    ob("init::unmentioned-rows-hold-the-shape's-default", raw == [0x21, default, default] and default == 0xA5,
+       {"raw rows": raw, "expected": [0x21, default, default], "how": "MemoryData(shape=Struct with a=5, b=0xA defaults, depth=3, init=[{'a': 1, 'b': 2}]).init._raw"})
+    mem2 = Memory(shape=Row, depth=3, init=[{"a": 1, "b": 2}])
+    rp2 = mem2.read_port(domain="comb")
+    m2 = Module()
+    m2.submodules.mem = mem2
+    got = []
+
+    async def tb(ctx):
+        for i in range(3):
+            ctx.set(rp2.addr, i)
+            got.append(ctx.get(rp2.data.as_value()) if hasattr(rp2.data, "as_value") else ctx.get(rp2.data))
+    sim = Simulator(m2)
+    sim.add_testbench(tb)
+    try:
+        sim.run()
+    except Exception as e:
+        got.append(repr(e)[:200])
+    ob("simulator::unmentioned-rows-read-as-the-shape's-default", got == [0x21, default, default], {"rows read through an asynchronous port": got, "expected": [0x21, default, default]})
+    text = rtlil.convert(m2, ports=[rp2.addr, rp2.data.as_value() if hasattr(rp2.data, "as_value") else rp2.data], emit_src=False)
+    mods2 = RP.parse(text)
+    datas = []
+    for mod in mods2.values():
+        for c in mod.cells.values():
+            if c.kind == "$meminit_v2":
+                bl = RP.bits_of(c.ports["\\DATA"], mod)
+                datas.append("".join(b for _k, b in reversed(bl)))
+    want_bits = "".join(format(v, "08b") for v in reversed([0x21, default, default]))
+    ob("rtlil::meminit-data-holds-the-shape's-default", datas == [want_bits], {"$meminit_v2 DATA": datas, "expected": want_bits})
+    return {"task": "clock-polarity-and-defaults", "paths": 0, "solver_s": 0.0, "obligations": obs}
 
 
 def check_behaviour(cfg, name, broken=False):
@@ -852,6 +933,8 @@ def run_task(task):
         return check_config(cfg, f"mem{task[1]}{cfg!r}".replace(" ", ""))
     if task[0] == "en-width":
         return check_en_width()
+    if task[0] == "clock-polarity-and-defaults":
+        return check_clock_polarity_and_defaults()
     if task[0] == "several-memories":
         return check_several_memories()
     if task[0] == "tb-row-access":
